@@ -48,6 +48,9 @@ def _insert_shape(f, names_var, index='index'):
   when the padding loop is located but stops at another length, or None (not recognised)."""
   whiles = [n for n in astu.body_walk(f.node) if isinstance(n, ast.While)]
   ins = [x for x in astu.func_calls(f) if astu.src(x.func) == '%s.insert' % names_var]
+  if len(ins) == 1 and not whiles and astu.src(ins[0].args[0]) == index and not any(isinstance(n, (ast.For, ast.ListComp)) or (isinstance(n, ast.BinOp) and isinstance(n.op, ast.Mult)) or
+                                                                                   (isinstance(n, ast.Call) and astu.call_tail(n) in ('extend', 'append')) for n in astu.body_walk(f.node)):
+    return 'off-by-one'  # no padding at all: list.insert beyond the end appends, the name lands on an earlier axis
   if len(whiles) != 1 or len(ins) != 1:
     return None
   w = whiles[0]
@@ -236,6 +239,17 @@ def r3(R, repo):
   put = [n for x in astu.func_calls(f) if astu.call_tail(x) == 'put_variable' for n in c.nodes_for(x)]
   ok = len(rb) == 1 and len(t) >= 1 and c.edge_guarded(rb[0], t[0], 'T') and len(put) == 1 and put[0] in c.reach(rb)
   R.judge(len(put) == 1 and (len(rb) == 1 or not evid.calls_deep(repo, f, evid.call_named('replace_boxed'))), ok, key_of(f, 'value re-boxed with meta.replace_boxed before being stored'), f, 'assigning to an unboxed view of a boxed variable must re-box the value (meta.replace_boxed(current, value)) before put_variable')
+  # the re-boxing must also cover a *tree* of boxes (a variable whose value is a pytree with boxed leaves): a guard that asks
+  # only whether the stored value itself is a box misses those
+  if len(rb) == 1:
+    direct = [t_ for t_ in c.nodes if t_.kind == 'if' and c.edge_guarded(rb[0], t_, 'T') and any(
+        isinstance(y_, ast.Call) and (astu.call_tail(y_) == 'is_axis_metadata' or (astu.call_name(y_) == 'isinstance' and 'AxisMetadata' in astu.src(y_)))
+        and y_.args and isinstance(y_.args[0], ast.Name) for y_ in ast.walk(t_.ast))]
+    tree = any(isinstance(y_, ast.Call) and astu.call_tail(y_) in ('tree_structure', 'tree_leaves', 'tree_flatten', 'flatten_up_to') for y_ in ast.walk(f.node))
+    if direct and not tree:
+      R.fail(key_of(f, 're-boxing covers trees of boxes'), (f, direct[0].stmt), '`%s` re-boxes only when the stored value *itself* is a box: a variable that holds a pytree whose leaves are boxed (e.g. a dict of Partitioned arrays) loses all its partition names on the first assignment' % astu.short(direct[0].ast))
+    elif tree:
+      R.ok(key_of(f, 're-boxing covers trees of boxes'), f)
   me = repo.mod(ME)
   mm = me.func('map_axis_meta')
   R.check('is_leaf=is_axis_metadata' in astu.src(mm.node) and 'isinstance(x, AxisMetadata)' in astu.src(mm.node), key_of(mm, 'maps over AxisMetadata leaves only'), mm, 'map_axis_meta must treat AxisMetadata boxes as leaves and leave everything else untouched')
